@@ -28,7 +28,8 @@ Record rel_claim (s : st) (t : sst) : Prop := mkrc {
   rc_wire : s_wire t = wire s;
   rc_inbound : s_inbound t = inbound s;
   rc_peer : s_peer_closed t = peer_closed s;
-  rc_live : s_gone t = false -> rel_live s t
+  rc_live : s_gone t = false -> rel_live s t;
+  rc_gone : s_gone t = true -> registered s = false      (* a connection given up is no longer polled *)
 }.
 
 Record rel (s : st) (t : sst) : Prop := mkrel {
@@ -37,7 +38,7 @@ Record rel (s : st) (t : sst) : Prop := mkrel {
 }.
 
 Lemma rel_init : rel init spec_init.
-Proof. split; [reflexivity|]. intros _ _. split; try reflexivity. intros _. split; reflexivity. Qed.
+Proof. split; [reflexivity|]. intros _ _. split; try reflexivity; [intros _; split; reflexivity | simpl; discriminate]. Qed.
 
 Lemma ret_code_eq n o : ret_code n o = fst (send_ret n o).
 Proof. destruct o; reflexivity. Qed.
@@ -77,13 +78,13 @@ Lemma deliver_refines s t n o s' r t' c :
   dispatch s n o = (s', r) -> spec_deliver t n o = (t', c) ->
   c = r /\ rel_claim s' t' /\ s_dead t' = s_dead t /\ s_void t' = s_void t /\ removed s' = false.
 Proof.
-  intros Hinv Hrm [Hc Hw Hi Hp Hl] Hg Hd Hs. destruct (Hl Hg) as [Hq Hsu Hr].
+  intros Hinv Hrm [Hc Hw Hi Hp Hl Hgn] Hg Hd Hs. destruct (Hl Hg) as [Hq Hsu Hr].
   destruct (Hinv) as [Hint _ _]. destruct (Hint Hr) as [Hir Hiw].
-  assert (Edr : (nin n || nhup n) && negb (s_susp t) = ev_read s n).
+  assert (Edr : (nin n || nhup n || nrdhup n) && negb (s_susp t) = ev_read s n).
   { unfold ev_read. rewrite Hir, Hsu. reflexivity. }
-  assert (Edw : (nout n || negb (ev_read s n) && nhup n) && negb (is_nil (q t)) = ev_write s n).
+  assert (Edw : (nout n || negb (ev_read s n) && (nhup n || nrdhup n)) && negb (is_nil (q t)) = ev_write s n).
   { unfold ev_write. rewrite Hiw, Hq. reflexivity. }
-  unfold spec_deliver in Hs. rewrite Edr, Edw in Hs.
+  unfold spec_deliver in Hs. rewrite Edr, Edw in Hs. unfold spec_deliver_flags in Hs.
   pose proof (send_ret_result (zlen (sendbuf s)) o (zlen_nonneg _)) as Hsr.
   apply event_cases in Hd; auto.
   destruct Hd as [[Hx|[He Hew]] -> -> | _ He Hew -> -> | _ Hew Hne Hf -> -> | sent _ Hew Hne Hsent Hwh -> -> | _ Hew Hne Hle -> ->].
@@ -151,7 +152,7 @@ Proof.
       (apply rel_void; [rewrite Ed; symmetry; eapply step_keeps_alive; eauto; congruence | auto])).
     inv_pair Hsp. unfold step in Hst. rewrite Hrm in Hst. inv_pair Hst. simpl. split; auto.
     apply rel_void; simpl; auto. }
-  specialize (Hcl eq_refl eq_refl). pose proof Hcl as [Hc Hw Hi Hp Hl].
+  specialize (Hcl eq_refl eq_refl). pose proof Hcl as [Hc Hw Hi Hp Hl Hgn].
   pose proof Hst as Hst'. unfold step in Hst. rewrite Hrm in Hst.
   (* operations answered in every served-or-given-up state *)
   assert (Hcommon : forall y, spec_common t x = Some y -> y = (t', c) -> claim_met c r /\ rel s' t').
